@@ -2213,6 +2213,7 @@ impl<'bump, T: 'bump> Vec<'bump, T> {
         Splice {
             drain: self.drain(range),
             replace_with: replace_with.into_iter(),
+            _bump: PhantomData,
         }
     }
 }
@@ -2586,6 +2587,9 @@ impl<'a, 'bump, T> FusedIterator for Drain<'a, 'bump, T> {}
 pub struct Splice<'a, 'bump, I: Iterator + 'a + 'bump> {
     drain: Drain<'a, 'bump, I::Item>,
     replace_with: I,
+    // Dropping a `Splice` allocates from the vector's `Bump`, so unlike `Drain` it must be
+    // neither `Send` nor `Sync`.
+    _bump: PhantomData<&'bump Bump>,
 }
 
 impl<'a, 'bump, I: Iterator> Iterator for Splice<'a, 'bump, I> {
